@@ -532,6 +532,21 @@ func (s *v4Server) updateStaticLease(l *dhcpsvc.Lease) (err error) {
 	s.leasesLock.Lock()
 	defer s.leasesLock.Unlock()
 
+	// Check the conditions addLease rejects a static lease for before removing
+	// the dynamic leases, so that a rejected lease leaves the table, which is
+	// not stored in that case, as it was.
+	if sn := s.conf.subnet; !sn.Contains(l.IP) {
+		return fmt.Errorf(
+			"adding static lease for %s (%s): subnet %s does not contain the ip %q",
+			l.IP,
+			l.HWAddr,
+			sn,
+			l.IP,
+		)
+	} else if dup, ok := s.hostsIndex[l.Hostname]; ok && l.Hostname != "" && dup.IsStatic {
+		return fmt.Errorf("adding static lease for %s (%s): %w", l.IP, l.HWAddr, ErrDupHostname)
+	}
+
 	err = s.rmDynamicLease(l)
 	if err != nil {
 		return fmt.Errorf("removing dynamic leases for %s (%s): %w", l.IP, l.HWAddr, err)
